@@ -67,6 +67,10 @@ func checkC09(c *Ctx) {
 			return
 		}
 		t.Content = strings.ReplaceAll(t.Content, "E", "é")
+		// the ordinary letter, in rotating shapes: characters that mean something to fmt or to the assembler but nothing to poryscript
+		for k := 0; strings.Contains(t.Content, "a"); k++ {
+			t.Content = strings.Replace(t.Content, "a", []string{"A", "%", "A", "%s", "100% s", "A", "%d%%", "'", "A", "%!"}[(len(texts)+k)%10], 1)
+		}
 		for strings.Contains(t.Content, "H") {
 			t.Content = strings.Replace(t.Content, "H", []string{"#", "//", "# ", "//x"}[len(texts)%4], 1)
 		}
@@ -254,7 +258,7 @@ func checkC09(c *Ctx) {
 	}
 	c.Cov("evaluations", int64(len(recs)))
 	c.Cov("distinct_nontrivial", int64(len(recs)))
-	c.CovSet("rule", "every content of length <= 3 (4 when thorough) over {$ \\ 0 a \\n multi-byte, a line break inside the quotes, a comment opener} x 4 string types (enumerated by TLC from GenText.tla) as single-part text in rotating origins (inline, text statement, poryswitch case matched / by default, format() in both positions), plus seeded multi-part literals; a case is one text, distinct by construction")
+	c.CovSet("rule", "every content of length <= 3 (4 when thorough) over {$ \\ 0 letter-or-% \\n multi-byte, a line break inside the quotes, a comment opener} x 4 string types (enumerated by TLC from GenText.tla) as single-part text in rotating origins (inline, text statement, poryswitch case matched / by default, format() in both positions), plus seeded multi-part literals; a case is one text, distinct by construction")
 	c.Cov("states", states)
 	c.CovSet("exhaustive_single_part_contents", len(texts))
 }
